@@ -452,6 +452,19 @@ class Session:
             goal = z3.Implies(z3.And(list(hyps)), goal)
         self.ctx.assume(goal)
 
+    def row_lemma(self, label, dim, stmt, hyps_of=None, pure_hyps=None):
+        """prove stmt(row) for a generic row of an axis of size `dim` (own obligation), then make it available to the
+        safety obligations of this path whose generic index runs over the same axis (instantiated at their index by
+        the runner).  pure_hyps(row): discharge from exactly these hypotheses (no context)."""
+        d = core.dim_of(dim) if not isinstance(dim, core.Dim) else dim
+        row = tuple(z3.Int(core.fresh_name("rl")) for _ in d.factors)
+        rng = [z3.And(r >= 0, r < zint(f)) for r, f in zip(row, d.factors)]
+        if pure_hyps is not None:
+            self.ctx.oblige(f"{self.prefix}/lemma:{label}", stmt(row), list(pure_hyps(row)) + rng, "lemma", pure=True)
+        else:
+            self.ensure(label, stmt(row), rng + list(hyps_of(row) if hyps_of else []), kind="lemma")
+        self.ctx.ghost.setdefault("row_lemmas", []).append((d, stmt))
+
     def abstract_field(self, obj, field, name, facts):
         """modular step: replace a computed field by a fresh constant about which only the (already
         proved) characterisation `facts(fresh)` is known"""
